@@ -212,7 +212,18 @@ func (m *Muxer) isAnimated() bool {
 
 // needsVP8X returns true if the file requires the extended format header.
 func (m *Muxer) needsVP8X() bool {
-	return m.isAnimated() || m.iccData != nil || m.exifData != nil || m.xmpData != nil
+	return m.isAnimated() || m.iccData != nil || m.exifData != nil || m.xmpData != nil || m.stillHasAlphaChunk()
+}
+
+// stillHasAlphaChunk reports whether the single still frame carries an ALPH
+// chunk prefix. Such an image needs the extended format: the ALPH chunk is
+// written as its own chunk in front of the VP8 chunk.
+func (m *Muxer) stillHasAlphaChunk() bool {
+	if len(m.frames) != 1 {
+		return false
+	}
+	alphaData, _ := splitAlphaAndBitstream(m.frames[0].data)
+	return alphaData != nil
 }
 
 // Assemble writes the complete WebP file to w.
@@ -381,7 +392,7 @@ func (m *Muxer) assembleExtended(w io.Writer) error {
 				riffPayload64++
 			}
 		} else {
-			riffPayload64 += uint64(chunkTotalSize(uint32(len(f.data))))
+			riffPayload64 += uint64(subChunkSize(f.data))
 		}
 	}
 
@@ -447,7 +458,13 @@ func (m *Muxer) assembleExtended(w io.Writer) error {
 				return err
 			}
 		} else {
-			if err := writeDataChunk(w, detectBitstreamType(f.data), f.data); err != nil {
+			alphaData, bitstream := splitAlphaAndBitstream(f.data)
+			if alphaData != nil {
+				if err := writeDataChunk(w, FourCCALPH, alphaData); err != nil {
+					return err
+				}
+			}
+			if err := writeDataChunk(w, detectBitstreamType(bitstream), bitstream); err != nil {
 				return err
 			}
 		}
